@@ -1,4 +1,5 @@
 import Hls.Muxer.TimeKey
+import Hls.Muxer.TimePaths
 /-!
 # The global time invariant and its preservation by every muxer operation (helper file for C02 / C03)
 -/
@@ -226,6 +227,55 @@ theorem leadThenOthers_spec (G : State → Nat → State) (g : State → Nat →
   simp only [f, hnl, if_false, Bool.false_eq_true]
   rw [stream_of_set_same hs hsi', stream_of_set_other hs (Ne.symm hne), eL]
 
+
+/-- a reflexive-transitive relation carried through `leadThenOthers` -/
+theorem leadThenOthers_rel (R : State → State → Prop) (Rrefl : ∀ a, R a a) (Rtrans : ∀ a b c, R a b → R b c → R a c)
+    (G : State → Nat → State) (copy : StreamSt → StreamSt → StreamSt) (st : State) (li : Nat)
+    (hG : ∀ s si, si < s.streams.length → R s (G s si))
+    (hc : ∀ s si, R s (s.setStream si (copy (s.stream si) (s.stream li))))
+    (hlen : ∀ s si, (G s si).streams.length = s.streams.length) (hli : li < st.streams.length) :
+    R st (leadThenOthers G copy st li) := by
+  unfold leadThenOthers
+  simp only
+  have h1 := hG st li hli
+  have := foldl_range_inv (fun st si =>
+      if (st.stream si).isLeading then st
+      else (G st si).setStream si (copy ((G st si).stream si) ((G st si).stream li)))
+    (fun _ s => R (G st li) s ∧ s.streams.length = (G st li).streams.length) (G st li) (G st li).streams.length
+    ⟨Rrefl _, rfl⟩ (by
+      intro k s hk ⟨hr, hl⟩
+      split
+      · exact ⟨hr, hl⟩
+      · refine ⟨Rtrans _ _ _ hr (Rtrans _ _ _ (hG s k (by rw [hl]; exact hk)) (hc _ _)), ?_⟩
+        simp only [setStream_streams, List.length_set, hlen, hl])
+  exact Rtrans _ _ _ h1 this.1
+
+theorem IRel_setStream_copy (s : State) (si : Nat) (r : StreamSt) (h : r.tracks = (s.stream si).tracks) :
+    IRel s (s.setStream si r) :=
+  ⟨stream_tracks_of_set (st' := s.setStream si r) rfl h, fun _ => Or.inl rfl⟩
+
+theorem IRel_rotateParts (st : State) (d : Int) (hli : st.leadingStream < st.streams.length) :
+    IRel st (rotateParts st d) := by
+  rw [rotateParts_eq]
+  exact leadThenOthers_rel IRel IRel.refl (fun _ _ _ => IRel.trans) _ _ st _
+    (fun s si _ => IRel_rps s si d true) (fun s si => IRel_setStream_copy s si _ rfl)
+    (fun s si => length_of_set (rps_streams s si d true)) hli
+
+theorem IRel_rotateSegments (st : State) (d n : Int) (f : Bool) (hli : st.leadingStream < st.streams.length) :
+    IRel st (rotateSegments st d n f) := by
+  rw [rotateSegments_eq]
+  refine leadThenOthers_rel IRel IRel.refl (fun _ _ _ => IRel.trans) _ _ st _
+    (fun s si hsi => IRel_rss s si d n f hsi) (fun s si => IRel_setStream_copy s si _ rfl) ?_ hli
+  intro s si
+  by_cases hsi : si < s.streams.length
+  · exact length_of_set (rss_streams s si d n f hsi)
+  · -- out of range: nothing happens to the list of streams
+    have hd : ∀ x : State, x.streams.length = s.streams.length → x.stream si = { tracks := [], isLeading := false, nextSegmentID := 0 } := by
+      intro x hx
+      simp [State.stream, List.getD_eq_getElem?_getD, List.getElem?_eq_none (by rw [hx]; exact Nat.le_of_not_lt hsi)]
+    have hpre : (rsPre s si d).streams.length = s.streams.length := length_of_set (rsPre_streams s si d)
+    rw [rotateSegmentsStream_eq, hd _ hpre]
+    exact hpre
 
 /-- a copy of targets only -/
 structure CopyOK (copy : StreamSt → StreamSt → StreamSt) : Prop where
